@@ -14,7 +14,11 @@ fn supervise(id: &str, tier: &str) -> i32 {
         f.set_len((engine::crumb::SLOTS * engine::crumb::SLOT) as u64).expect("crumb file size");
     }
     let exe = std::env::current_exe().expect("current exe");
-    let mut child = match std::process::Command::new(exe).args(["run", id, tier]).env("VERIF_CRUMBS", &crumbs).spawn() {
+    let mut cmd = std::process::Command::new(exe);
+    cmd.args(["run", id, tier]).env("VERIF_CRUMBS", &crumbs);
+    // the worker must not outlive this supervisor (a check stopped from outside would otherwise leave it running)
+    unsafe { use std::os::unix::process::CommandExt; cmd.pre_exec(|| { libc::prctl(libc::PR_SET_PDEATHSIG, libc::SIGKILL); Ok(()) }); }
+    let mut child = match cmd.spawn() {
         Ok(c) => c,
         Err(e) => {
             eprintln!("MACHINERY: cannot spawn worker: {e}");
